@@ -37,6 +37,8 @@ type traversal[S any, T any] struct {
 	mu      sync.Mutex
 	status  map[string]int
 	results map[string]T
+	// sem bounds the number of visitor functions running at once
+	sem chan struct{}
 }
 
 type Options struct {
@@ -93,6 +95,9 @@ func walk[S, T any](ctx context.Context, g *graph[S], t *traversal[S, T]) error 
 	eg, ctx := errgroup.WithContext(ctx)
 	if t.maxConcurrency > 0 {
 		eg.SetLimit(t.maxConcurrency + 1)
+		// the errgroup limit also counts the coordinator goroutine below, whose slot is
+		// released once ctx is done; keep visitors themselves bounded by maxConcurrency
+		t.sem = make(chan struct{}, t.maxConcurrency)
 	}
 
 	eg.Go(func() error {
@@ -138,7 +143,13 @@ func (t *traversal[S, T]) visit(ctx context.Context, eg *errgroup.Group, node *v
 		)
 		verifYield("spawned", node.key)
 		if !t.skip(node) {
+			if t.sem != nil {
+				t.sem <- struct{}{}
+			}
 			result, err = t.visitor(ctx, node.key, *node.service)
+			if t.sem != nil {
+				<-t.sem
+			}
 		}
 		t.done(node, result)
 		nodeCh <- node
